@@ -1,0 +1,94 @@
+//go:build verif
+
+package consensus
+
+import "go.sia.tech/core/types"
+
+// This file exists only under the "verif" build tag. It exposes the element
+// accumulator's internal apply/revert algebra to the verification harness in
+// /verif so that TLC-enumerated transitions can be replayed on it directly.
+// It adds no behaviour: every function forwards to the unexported original.
+
+// A VerifLeaf is an accumulator leaf: a state element, the hash of its
+// contents, and its spent flag.
+type VerifLeaf struct{ l elementLeaf }
+
+// VerifNewLeaf builds a leaf from raw parts.
+func VerifNewLeaf(se *types.StateElement, elementHash types.Hash256, spent bool) VerifLeaf {
+	return VerifLeaf{elementLeaf{se, elementHash, spent}}
+}
+
+// VerifSiacoinLeaf forwards to siacoinLeaf.
+func VerifSiacoinLeaf(e *types.SiacoinElement, spent bool) VerifLeaf {
+	return VerifLeaf{siacoinLeaf(e, spent)}
+}
+
+// VerifSiafundLeaf forwards to siafundLeaf.
+func VerifSiafundLeaf(e *types.SiafundElement, spent bool) VerifLeaf {
+	return VerifLeaf{siafundLeaf(e, spent)}
+}
+
+// VerifFileContractLeaf forwards to fileContractLeaf.
+func VerifFileContractLeaf(e *types.FileContractElement, rev *types.FileContract, spent bool) VerifLeaf {
+	return VerifLeaf{fileContractLeaf(e, rev, spent)}
+}
+
+// VerifV2FileContractLeaf forwards to v2FileContractLeaf.
+func VerifV2FileContractLeaf(e *types.V2FileContractElement, rev *types.V2FileContract, spent bool) VerifLeaf {
+	return VerifLeaf{v2FileContractLeaf(e, rev, spent)}
+}
+
+// VerifAttestationLeaf forwards to attestationLeaf.
+func VerifAttestationLeaf(e *types.AttestationElement) VerifLeaf {
+	return VerifLeaf{attestationLeaf(e)}
+}
+
+// VerifChainIndexLeaf forwards to chainIndexLeaf.
+func VerifChainIndexLeaf(e *types.ChainIndexElement) VerifLeaf {
+	return VerifLeaf{chainIndexLeaf(e)}
+}
+
+// Hash returns the leaf hash.
+func (v VerifLeaf) Hash() types.Hash256 { return v.l.hash() }
+
+// ElementHash returns the hash of the element's contents.
+func (v VerifLeaf) ElementHash() types.Hash256 { return v.l.elementHash }
+
+// Element returns the leaf's state element.
+func (v VerifLeaf) Element() *types.StateElement { return v.l.StateElement }
+
+// ProofRoot returns the root obtained from the leaf and its proof.
+func (v VerifLeaf) ProofRoot() types.Hash256 { return v.l.proofRoot() }
+
+func verifLeaves(vs []VerifLeaf) []elementLeaf {
+	ls := make([]elementLeaf, len(vs))
+	for i := range vs {
+		ls[i] = vs[i].l
+	}
+	return ls
+}
+
+// A VerifApplyUpdate wraps elementApplyUpdate.
+type VerifApplyUpdate struct{ eau elementApplyUpdate }
+
+// A VerifRevertUpdate wraps elementRevertUpdate.
+type VerifRevertUpdate struct{ eru elementRevertUpdate }
+
+// VerifApply forwards to applyBlock.
+func (acc *ElementAccumulator) VerifApply(updated, added []VerifLeaf) VerifApplyUpdate {
+	return VerifApplyUpdate{acc.applyBlock(verifLeaves(updated), verifLeaves(added))}
+}
+
+// VerifRevert forwards to revertBlock.
+func (acc *ElementAccumulator) VerifRevert(updated, added []VerifLeaf) VerifRevertUpdate {
+	return VerifRevertUpdate{acc.revertBlock(verifLeaves(updated), verifLeaves(added))}
+}
+
+// UpdateElementProof forwards to elementApplyUpdate.updateElementProof.
+func (u *VerifApplyUpdate) UpdateElementProof(e *types.StateElement) { u.eau.updateElementProof(e) }
+
+// UpdateElementProof forwards to elementRevertUpdate.updateElementProof.
+func (u *VerifRevertUpdate) UpdateElementProof(e *types.StateElement) { u.eru.updateElementProof(e) }
+
+// VerifContainsLeaf forwards to containsLeaf.
+func (acc *ElementAccumulator) VerifContainsLeaf(v VerifLeaf) bool { return acc.containsLeaf(v.l) }
